@@ -2665,7 +2665,8 @@ func _return(n *node) {
 		case errorT:
 			values[i] = genInterfaceWrapper(c, t.TypeOf())
 		case funcT:
-			values[i] = genValue(c)
+			// A declared function returned as a value is wrapped, as when it is assigned.
+			values[i] = genFuncValue(c)
 		case valueT:
 			switch t.rtype.Kind() {
 			case reflect.Interface:
